@@ -86,6 +86,8 @@ structure CGOps (S R V : Type) where
   gtReal : S → R → Bool
   /-- `snp.sqrt(num).real` -/
   sqrtRe : S → R
+  /-- `den == 0` on a scalar of `b.dtype` (used by `cg_solver`) -/
+  isZero : S → Bool
 
 structure CGState (S V : Type) where
   x : V
@@ -174,25 +176,26 @@ def scanInit (ops : CGOps S R V) (A : V → V) (b x0 : V) : ScanState S V :=
   { x := x0, r := r, p := r, num := ops.inner r r }
 
 omit [Mul R] [Div R] [Max R] in
-/-- `fun(carry, _)` -/
-def scanStep (ops : CGOps S R V) (A : V → V) (s : ScanState S V) : ScanState S V :=
+/-- `fun(carry, _)`: the two quotients are guarded, `jnp.where(den == 0, 0.0, num / den)` -/
+def scanStep [Zero S] (ops : CGOps S R V) (A : V → V) (s : ScanState S V) : ScanState S V :=
   let Ap := A s.p
-  let alpha := s.num / ops.inner s.p Ap
+  let den := ops.inner s.p Ap
+  let alpha := if ops.isZero den then 0 else s.num / den
   let x := s.x + alpha • s.p
   let r := s.r - alpha • Ap
   let num := ops.inner r r
-  let beta := num / s.num
+  let beta := if ops.isZero s.num then 0 else num / s.num
   let p := r + beta • s.p
   { x := x, r := r, p := p, num := num }
 
 omit [Mul R] [Div R] [Max R] in
 /-- `lax.scan(fun, carry, length=k)` -/
-def scanIter (ops : CGOps S R V) (A : V → V) : Nat → ScanState S V → ScanState S V
+def scanIter [Zero S] (ops : CGOps S R V) (A : V → V) : Nat → ScanState S V → ScanState S V
   | 0, s => s
   | k + 1, s => scanIter ops A k (scanStep ops A s)
 
 omit [Mul R] [Div R] [Max R] in
-def cgScan (ops : CGOps S R V) (A : V → V) (b x0 : V) (maxiter : Nat) : V :=
+def cgScan [Zero S] (ops : CGOps S R V) (A : V → V) (b x0 : V) (maxiter : Nat) : V :=
   (scanIter ops A maxiter (scanInit ops A b x0)).x
 
 /-! ### least squares  (`scico.solver.lstsq`): `cg(Aop.H @ Aop, Aop.H @ b, …)` -/
